@@ -905,7 +905,7 @@ def judge_match(prop, case):
     if prop == "C09" or "tree" not in case or case["tree"] is None:
         return []
     if case.get("bareReserved"):
-        if letter != "E" and prop != "C12":
+        if letter != "E" and prop not in ("C12", "C10"):
             return [{"sig": "reserved-accepted", "why": "a reserved word used as a bare attribute name was accepted: %r" % case.get("text")}]
         return []
     if prop == "C16":
@@ -915,8 +915,8 @@ def judge_match(prop, case):
     except Exception as e:
         return []
     if letter not in allowed:
-        if prop == "C12":
-            # only outcomes that the deviations unrelated to numbers do not explain are C12's business
+        if prop in ("C12", "C10"):
+            # only outcomes that the deviations unrelated to numbers do not explain are C12's (and C10's) business
             try:
                 other = evalc(case["tree"], case["item"], spec.Opts(root_scalar_err=True, path_operand_err=True, contains_subset=True))
             except Exception:
